@@ -10,7 +10,7 @@ from typing import Dict, List, Optional, Set, Tuple
 from ..cfg import CFG
 from ..lexmodel import LexModel, Rule
 from ..model import AnalysisError, attr_chain, norm, short, walk_local
-from ..report import Ctx
+from ..report import Ctx, SubCtx
 from .. import fillmodel
 from ..rx import Auto, END, not_included, prefix_preempts
 from ..tokbuf import FillModel
@@ -101,6 +101,8 @@ def run(ctx: Ctx) -> None:
         ctx.ob("R8.1", f"lexer:PlyLexer.{r.name}|t.value unchanged", not r.value_stores,
                msg=f"{r.name} rewrites the token's value: token texts no longer reproduce the input", node=r.node, mod=lexmod, nontrivial=False)
 
+    if isinstance(ctx, SubCtx) and set(ctx._map) <= {"R8.1"}:
+        return  # evaluated for another property that shares only the rule above
     # ------------------------------------------------------------------ R8.2
     ctx.rule("R8.2", "every raw token fetched in _fill_tokbuf is stamped, then buffered or fused, before its variable is overwritten or the function returns", minimum=3)
     findings = fm.linear()
